@@ -18,3 +18,7 @@ pub mod trie;
 pub mod trie_pos;
 pub mod update;
 pub mod witness;
+
+#[cfg(kani)]
+#[path = "/verif/units/kani/core_lib.rs"]
+mod verif_kani;
